@@ -74,6 +74,13 @@ def _more_hand_made(P: Any) -> list[tuple[str, list[Any], list[list[Any]], list[
     # jumps into the list of cases of a switch (no ExplorerScript syntax: must end in the exact fallback, never in a switch that lost cases)
     sets.append(("jump-into-case-list", [inf("GENERIC")], [[
         o(0, "hm_first", []), o(1, "Switch", [V("$S")]), o(2, "Case", [2, 6]), o(3, "Case", [3, 5]), o(4, "Jump", [1]), o(5, "hm_body", []), o(6, "Jump", [2])]], [None]))
+    # the same with parameters of every kind in the fallback text; position marks at -1 (the SsbScript reader's "not set yet" value) in either coordinate
+    pm = lambda n, xo, yo, xr, yr: pa("SsbOpParamPositionMarker", n, xo, yo, xr, yr)  # noqa: E731
+    sets.append(("jump-into-case-list-with-parameters", [inf("GENERIC")], [[
+        o(0, "hm_first", [pm("left", 0, 0, -1, 4), pm("left half", 2, 0, -1, 4), pm("up", 0, 0, 4, -1), pm("both", 2, 2, -1, -1), pm("zero", 0, 0, 0, 0)]),
+        o(1, "Switch", [V("$S")]), o(2, "Case", [2, 6]), o(3, "Case", [3, 5]), o(4, "Jump", [1]),
+        o(5, "hm_body", [-1, 0, pa("SsbOpParamFixedPoint", "-1.5") if False else -1, pa("SsbOpParamConstString", "two\nlines"), pa("SsbOpParamLanguageString", {"english": "a", "german": "b\nc"})]),
+        o(6, "Jump", [2])]], [None]))
     sets.append(("jump-into-case-list-shared-branch", [inf("GENERIC")], [[
         o(0, "Switch", [V("$S")]), o(1, "Case", [1, 5]), o(2, "Case", [2, 6]), o(3, "Case", [3, 5]), o(4, "Jump", [3]), o(5, "Jump", [3]), o(6, "Jump", [0])]], [None]))
     # every routine kind, targets by number and by name, coroutine names - in a set that can only be written as fallback text
@@ -99,6 +106,40 @@ def _more_hand_made(P: Any) -> list[tuple[str, list[Any], list[list[Any]], list[
     sets.append(("shared-tail-and-routine-starting-with-jump", [inf("GENERIC"), inf("GENERIC")], [
         [o(0, "Jump", [2]), o(1, "hm_dead", []), o(2, "hm_live", []), o(3, "Branch", [V("$A"), 1, 6]), o(4, "hm_l", []), o(5, "Jump", [7]), o(6, "hm_r", []), o(7, "hm_tail", []), o(8, "End", [])],
         [o(9, "hm_s", []), o(10, "Return", [])]], [None, None]))
+    # a context op (lives / object / performer) in front of everything that is not one simple statement: the with-block cannot hold it
+    cs = lambda t: pa("SsbOpParamConstString", t)  # noqa: E731
+    for cname, tail in (
+            ("another-context-op", [o(1, "object", [2]), o(2, "hm_x", [3]), o(3, "End", [])]),
+            ("two-context-ops-then-assignment", [o(1, "performer", [2]), o(2, "flag_Set", [V("$X"), 3]), o(3, "End", [])]),
+            ("message-switch", [o(1, "message_SwitchTalk", [V("$T")]), o(2, "CaseText", [1, cs("one")]), o(3, "DefaultText", [cs("d")]), o(4, "End", [])]),
+            ("message-switch-monologue", [o(1, "message_SwitchMonologue", [V("$T")]), o(2, "CaseText", [1, cs("one")]), o(3, "End", [])]),
+            ("switch", [o(1, "Switch", [V("$T")]), o(2, "Case", [1, 4]), o(3, "Jump", [5]), o(4, "hm_a", []), o(5, "End", [])]),
+            ("branch", [o(1, "Branch", [V("$T"), 1, 3]), o(2, "hm_a", []), o(3, "End", [])]),
+            ("jump", [o(1, "Jump", [3]), o(2, "hm_a", []), o(3, "End", [])]),
+            ("jump-target", [o(1, "hm_a", []), o(2, "Jump", [1])]),
+            ("return", [o(1, "Return", [])]),
+            ("call", [o(1, "Call", [3]), o(2, "End", []), o(3, "hm_a", []), o(4, "Return", [])]),
+            ("assignment", [o(1, "flag_Set", [V("$X"), 3]), o(2, "End", [])]),
+            ("plain-op-with-strings", [o(1, "hm_say", [cs("two\nlines"), pa("SsbOpParamLanguageString", {"english": "a\nb"})]), o(2, "Hold", [])])):
+        sets.append((f"context-op-before-{cname}", [inf("GENERIC")], [[o(0, "lives", [1])] + tail], [None]))
+    sets.append(("context-op-at-the-end-of-a-routine", [inf("GENERIC"), inf("GENERIC")], [[o(0, "hm_a", []), o(1, "lives", [1])], [o(2, "hm_b", [])]], [None, None]))
+    # a context op with a terminator (`with (actor 2) { hold; }`: the actor's script ends, the routine goes on) as the whole arm of an if chain / a case
+    for cop, term in (("lives", "Hold"), ("object", "End"), ("performer", "Return")):
+        sets.append((f"{cop}-{term}-is-a-middle-elseif-arm", [inf("GENERIC")], [[
+            o(0, "Branch", [V("$A"), 1, 5]), o(1, "Branch", [V("$B"), 2, 7]), o(2, "Branch", [V("$C"), 3, 10]), o(3, "hm_else", []), o(4, "Jump", [12]),
+            o(5, "hm_a", []), o(6, "Jump", [12]), o(7, cop, [2]), o(8, term, []), o(9, "Jump", [12]), o(10, "hm_c", []), o(11, "Jump", [12]),
+            o(12, "hm_after", []), o(13, "End", [])]], [None]))
+        sets.append((f"{cop}-{term}-is-a-middle-case-body", [inf("GENERIC")], [[
+            o(0, "Switch", [V("$S")]), o(1, "Case", [1, 6]), o(2, "Case", [2, 8]), o(3, "Case", [3, 11]), o(4, "hm_default", []), o(5, "Jump", [13]),
+            o(6, "hm_one", []), o(7, "Jump", [13]), o(8, cop, [2]), o(9, term, []), o(10, "Jump", [13]), o(11, "hm_three", []), o(12, "Jump", [13]),
+            o(13, "hm_after", []), o(14, "End", [])]], [None]))
+    # a branch / case whose target lies in code of another routine that the other routine itself never reaches
+    sets.append(("branch-into-unreachable-code-of-another-routine", [inf("GENERIC"), inf("GENERIC")], [
+        [o(0, "Branch", [V("$A"), 1, 4]), o(1, "End", [])], [o(2, "hm_b", []), o(3, "End", []), o(4, "hm_after", []), o(5, "Return", [])]], [None, None]))
+    sets.append(("case-into-unreachable-code-of-another-routine", [inf("GENERIC"), inf("GENERIC")], [
+        [o(0, "Switch", [V("$A")]), o(1, "Case", [1, 5]), o(2, "End", [])], [o(3, "hm_b", []), o(4, "End", []), o(5, "hm_after", []), o(6, "Return", [])]], [None, None]))
+    sets.append(("branch-and-jump-into-unreachable-code-of-another-routine", [inf("GENERIC"), inf("GENERIC")], [
+        [o(0, "BranchBit", [V("$A"), 1, 5]), o(1, "Jump", [5])], [o(2, "hm_b", []), o(3, "Hold", []), o(4, "hm_never", []), o(5, "hm_after", []), o(6, "Jump", [4])]], [None, None]))
     return sets
 
 
